@@ -95,7 +95,7 @@ InitWith(t) ==
 \* formatted / blank CC, TLV area intact / broken, NDEF read-only
 Init == \E prod \in Prods, imm \in ImmModes, nakb \in NakModes, protd \in BOOLEAN, rp \in BOOLEAN, fmt \in BOOLEAN,
            ro \in BOOLEAN, tlv \in {"ok", "broken"}, tlv1 \in BOOLEAN :
-          /\ (protd => HasAC(prod)) /\ (rp => protd) /\ (ro => fmt) /\ (tlv1 => (prod = "ntag" /\ tlv = "broken"))
+          /\ (protd => HasAC(prod)) /\ (rp => protd) /\ (ro => fmt) /\ (tlv1 => (prod = "ntag" /\ tlv = "broken" /\ "format" \in Ops))
           /\ InitWith(TagInit(prod, PgTable(prod),
                               KeyPages(prod, IF protd /\ "kA" \in KeyParts THEN <<"kA", "kA">> ELSE Factory),
                               IF protd THEN 3 ELSE NoAuth0(prod), rp, FALSE, FALSE, FALSE,
